@@ -11,8 +11,16 @@ use super::{ConnectAckFlags, ConnectFlags};
 
 pub(crate) fn decode_packet(mut src: Bytes, first_byte: u8) -> Result<Packet, DecodeError> {
     match first_byte {
-        packet_type::CONNECT => decode_connect_packet(&mut src),
-        packet_type::CONNACK => decode_connect_ack_packet(&mut src),
+        packet_type::CONNECT => {
+            let packet = decode_connect_packet(&mut src)?;
+            ensure!(!src.has_remaining(), DecodeError::InvalidLength);
+            Ok(packet)
+        }
+        packet_type::CONNACK => {
+            let packet = decode_connect_ack_packet(&mut src)?;
+            ensure!(!src.has_remaining(), DecodeError::InvalidLength);
+            Ok(packet)
+        }
         packet_type::PUBACK => decode_ack(src, |packet_id| Packet::PublishAck { packet_id }),
         packet_type::PUBREC => {
             decode_ack(src, |packet_id| Packet::PublishReceived { packet_id })
@@ -29,9 +37,18 @@ pub(crate) fn decode_packet(mut src: Bytes, first_byte: u8) -> Result<Packet, De
         packet_type::UNSUBACK => {
             decode_ack(src, |packet_id| Packet::UnsubscribeAck { packet_id })
         }
-        packet_type::PINGREQ => Ok(Packet::PingRequest),
-        packet_type::PINGRESP => Ok(Packet::PingResponse),
-        packet_type::DISCONNECT => Ok(Packet::Disconnect),
+        packet_type::PINGREQ => {
+            ensure!(!src.has_remaining(), DecodeError::InvalidLength);
+            Ok(Packet::PingRequest)
+        }
+        packet_type::PINGRESP => {
+            ensure!(!src.has_remaining(), DecodeError::InvalidLength);
+            Ok(Packet::PingResponse)
+        }
+        packet_type::DISCONNECT => {
+            ensure!(!src.has_remaining(), DecodeError::InvalidLength);
+            Ok(Packet::Disconnect)
+        }
         _ => Err(DecodeError::UnsupportedPacketType),
     }
 }
